@@ -2,7 +2,7 @@
    ONLY statements: each theorem is closed by `exact` of a lemma proved elsewhere and followed by Print Assumptions. *)
 From Coq Require Import ZArith NArith List Bool Lia Permutation SpecFloat.
 Import ListNotations.
-Require Import Base Builtins LinkArith Float Strings Arith Eq Complex.
+Require Import Base Builtins LinkArith Float Strings Arith LinkKinds Eq Complex.
 Open Scope Z_scope.
 (* about the kernel REGENERATED from arithmetics.py *)
 Theorem int_div_is_quot a d :
@@ -73,6 +73,17 @@ Theorem pow_mod_neg_spec b e m i :
   0 < m -> e < 0 -> modinv b m = Some i -> ((i ^ (- e)) mod m * b ^ (- e)) mod m = 1 mod m.
 Proof. exact (Arith.pow_mod_neg_spec b e m i). Qed.
 Print Assumptions pow_mod_neg_spec.
+
+(* REGENERATED: the model's `real` and `number` kinds are AS.Real / AS.Number of abstract_syntax.py as they read today *)
+Theorem real_is_the_source_union v :
+  is_real v = in_union GenKinds.gen_Real v.
+Proof. exact (LinkKinds.real_is_the_source_union v). Qed.
+Print Assumptions real_is_the_source_union.
+
+Theorem number_is_the_source_union v :
+  is_num v = in_union GenKinds.gen_Number v.
+Proof. exact (LinkKinds.number_is_the_source_union v). Qed.
+Print Assumptions number_is_the_source_union.
 
 (* THE TOWER: a sum is of the widest kind among its operands (integer < real < complex) - never wider *)
 Theorem sum_widens_only_when_needed  :
